@@ -90,6 +90,15 @@ func (ex *Exec) modelOfDraws() (map[string]uint64, error) {
 	return m, nil
 }
 
+func poolItemKey(pool *Value, item Value) interface{} {
+	if i, ok := item.(Iface); ok {
+		if ip, ok := i.V.(*Value); ok {
+			return ip
+		}
+	}
+	return pool
+}
+
 func init() {
 	T := "(*" + rtPkg + ".T)."
 	reg(T+"U8", drawInt(8))
@@ -219,6 +228,18 @@ func init() {
 	}
 	reg(rtPkg+".IteU32", ite)
 	reg(rtPkg+".IteU64", ite)
+	reg(T+"Threads", func(ex *Exec, caller *frame, fn *ssa.Function, args []Value) Value {
+		b := args[1].(*term.T)
+		if b.Op != term.OConst {
+			panic(pathAbort{"engine", "symbolic preemption bound"})
+		}
+		ex.runThreads(caller, int(b.SignedVal()), args[2].(Slice).V)
+		return nil
+	})
+	reg(rtPkg+".Point", func(ex *Exec, caller *frame, fn *ssa.Function, args []Value) Value {
+		ex.schedPoint(nil, "Point")
+		return nil
+	})
 	reg(rtPkg+".RunGoroutines", func(ex *Exec, caller *frame, fn *ssa.Function, args []Value) Value {
 		ex.runGoroutines()
 		return nil
@@ -235,6 +256,19 @@ func init() {
 			if m == nil {
 				m = &mutexState{}
 				ex.mutexes[p] = m
+			}
+			if ex.sched != nil {
+				if write {
+					ex.schedPoint(func() bool { return m.w == 0 && m.r == 0 }, "Lock"+ex.where())
+					m.w = 1
+					ex.acquireEdge(p)
+					ex.acquireEdge(rdKey{p})
+				} else {
+					ex.schedPoint(func() bool { return m.w == 0 }, "RLock"+ex.where())
+					m.r++
+					ex.acquireEdge(p)
+				}
+				return nil
 			}
 			if write {
 				if m.w > 0 || m.r > 0 {
@@ -259,8 +293,10 @@ func init() {
 			}
 			if write {
 				m.w = 0
+				ex.releaseEdge(p)
 			} else {
 				m.r--
+				ex.releaseEdge(rdKey{p})
 			}
 			return nil
 		}
@@ -278,26 +314,35 @@ func init() {
 			m = &mutexState{}
 			ex.mutexes[p] = m
 		}
-		if m.w > 0 {
+		ex.schedPoint(nil, "TryLock")
+		if m.w > 0 || m.r > 0 {
 			return ex.tb.False
 		}
 		m.w = 1
+		ex.acquireEdge(p)
+		ex.acquireEdge(rdKey{p})
 		return ex.tb.True
 	})
 	reg("(*sync.Once).Do", func(ex *Exec, caller *frame, fn *ssa.Function, args []Value) Value {
 		p := args[0].(*Value)
+		ex.schedPoint(nil, "Once.Do")
 		if ex.onces[p] {
+			ex.acquireEdge(p)
 			return nil
 		}
 		ex.onces[p] = true
 		ex.callValue(caller, args[1], nil, nil)
+		ex.releaseEdge(p)
 		return nil
 	})
 	reg("(*sync.Pool).Get", func(ex *Exec, caller *frame, fn *ssa.Function, args []Value) Value {
 		p := args[0].(*Value)
+		ex.schedPoint(nil, "Pool.Get")
 		if l := ex.pools[p]; len(l) > 0 {
 			v := l[len(l)-1]
 			ex.pools[p] = l[:len(l)-1]
+			// Put(x) happens before the Get that returns x (and nothing else)
+			ex.acquireEdge(poolItemKey(p, v))
 			return v
 		}
 		// field New is the last field of sync.Pool
@@ -313,6 +358,8 @@ func init() {
 		if i, ok := args[1].(Iface); ok && i.T == nil {
 			return nil
 		}
+		ex.schedPoint(nil, "Pool.Put")
+		ex.releaseEdge(poolItemKey(p, args[1]))
 		ex.pools[p] = append(ex.pools[p], args[1])
 		return nil
 	})
@@ -379,7 +426,20 @@ func init() {
 	})
 
 	// ---- sync/atomic ----
+	areg := func(name string, f intrinsic) {
+		reg(name, func(ex *Exec, caller *frame, fn *ssa.Function, args []Value) Value {
+			if ex.sched == nil {
+				return f(ex, caller, fn, args)
+			}
+			ex.schedPoint(nil, "atomic")
+			ex.acquireEdge(args[0])
+			ex.noTouch++
+			defer func() { ex.noTouch--; ex.releaseEdge(args[0]) }()
+			return f(ex, caller, fn, args)
+		})
+	}
 	for _, ty := range []string{"Int32", "Int64", "Uint32", "Uint64", "Uintptr"} {
+		reg := areg
 		reg("sync/atomic.Add"+ty, func(ex *Exec, caller *frame, fn *ssa.Function, args []Value) Value {
 			old := ex.load(args[0], nil).(*term.T)
 			nv := ex.tb.Add(old, args[1].(*term.T))
@@ -407,21 +467,21 @@ func init() {
 			return ex.tb.False
 		})
 	}
-	reg("sync/atomic.LoadPointer", func(ex *Exec, caller *frame, fn *ssa.Function, args []Value) Value {
+	areg("sync/atomic.LoadPointer", func(ex *Exec, caller *frame, fn *ssa.Function, args []Value) Value {
 		return ex.load(args[0], nil)
 	})
-	reg("sync/atomic.StorePointer", func(ex *Exec, caller *frame, fn *ssa.Function, args []Value) Value {
+	areg("sync/atomic.StorePointer", func(ex *Exec, caller *frame, fn *ssa.Function, args []Value) Value {
 		ex.store(args[0], args[1])
 		return nil
 	})
-	reg("(*sync/atomic.Value).Load", func(ex *Exec, caller *frame, fn *ssa.Function, args []Value) Value {
+	areg("(*sync/atomic.Value).Load", func(ex *Exec, caller *frame, fn *ssa.Function, args []Value) Value {
 		v, ok := ex.sidecar[fmt.Sprintf("atomicval:%p", args[0].(*Value))]
 		if !ok {
 			return Iface{}
 		}
 		return v
 	})
-	reg("(*sync/atomic.Value).Store", func(ex *Exec, caller *frame, fn *ssa.Function, args []Value) Value {
+	areg("(*sync/atomic.Value).Store", func(ex *Exec, caller *frame, fn *ssa.Function, args []Value) Value {
 		ex.sidecar[fmt.Sprintf("atomicval:%p", args[0].(*Value))] = args[1]
 		return nil
 	})
